@@ -873,3 +873,294 @@ def c05_10(ctx: Ctx):
               f"the loop only shifts blocks with `{b}.offset >= offset`; a block that starts before the edit point and extends over it (an overlapping block other than the edited one) "
               "keeps its size, so after a deletion it extends past the end of its byte interval (and after an insertion it no longer covers its last bytes)",
               key="C05.10::edit_byte_interval::straddling-blocks")
+
+
+# ----------------------------------------------------------------------------
+# rules for defects found on the unchanged tree by the bug-hunt round (DESIGN 7, F25-...)
+# ----------------------------------------------------------------------------
+
+
+def _truthiness_operands(test: ast.AST) -> List[ast.AST]:
+    """Sub-expressions whose *truthiness* decides `test` (through not/and/or)."""
+    if isinstance(test, ast.UnaryOp) and isinstance(test.op, ast.Not):
+        return _truthiness_operands(test.operand)
+    if isinstance(test, ast.BoolOp):
+        return [x for v in test.values for x in _truthiness_operands(v)]
+    return [test]
+
+
+@rule("GEN.zerofalsy", ALL_PROPS, "an address/offset is tested with `is None`, never by truthiness (0 is a valid address)", 1, scoped=True)
+def gen_zerofalsy(ctx: Ctx):
+    n = 0
+    for q, fi in sorted(ctx.repo.funcs.items()):
+        if q.startswith(("driver.", "assembler.__main__")):
+            continue
+        for node in walk_no_nested(fi.node):
+            if isinstance(node, ast.Assert):
+                tests = [node.test]
+            elif isinstance(node, (ast.If, ast.While)):
+                tests = [node.test]
+            elif isinstance(node, ast.IfExp):
+                tests = [node.test]
+            else:
+                continue
+            for op in [o for t in tests for o in _truthiness_operands(t)]:
+                n += 1
+                if isinstance(op, ast.Attribute) and op.attr in ("address", "offset", "displacement"):
+                    ctx.fail(fi, node, f"`{src(op)}` used as a truth value",
+                             f"`{src(op)}` is an integer that may be 0 (a module laid out from address 0, the first block of an interval): the test treats 0 like None, "
+                             "so a valid request is refused (AssertionError) or takes the 'absent' branch",
+                             key=f"{q}::zerofalsy::{src(op)}")
+    ctx.ok(ctx.repo.mod("_modify.retarget"), None, f"{n} truth-value operands of assert/if/while scanned", nontrivial=False, key="GEN.zerofalsy::scan")
+    if n < 300:
+        raise AnalysisError(f"only {n} conditions scanned")
+
+
+@rule("C20.9", ["C20", "C04"], "OffsetMapping.clear() empties the element level too", 1)
+def c20_9(ctx: Ctx):
+    cls = ctx.repo.cls("_adt.offset_mapping.OffsetMapping")
+    dele = cls.methods.get("__delitem__")
+    if dele is None:
+        raise AnalysisError("OffsetMapping.__delitem__ not found")
+    # does deleting the last Offset of an element drop the element key? (then the inherited clear() would be enough)
+    prunes = any(isinstance(n, ast.Delete) and any(src(t) in ("self._data[elem]", "self._data[key.element_id]") for t in n.targets) for n in ast.walk(dele.node)) and \
+        any("isinstance(key, gtirb.Offset)" in src(i.test) for i in ast.walk(dele.node) if isinstance(i, ast.If))
+    clr = cls.methods.get("clear")
+    own = clr is not None and any(src(c.func) == "self._data.clear" for c in calls_in(clr.node))
+    pruning_offset_branch = False
+    if prunes:
+        for i in [x for x in ast.walk(dele.node) if isinstance(x, ast.If) and "isinstance(key, gtirb.Offset)" in src(x.test)]:
+            pruning_offset_branch = any(isinstance(n, ast.Delete) and any(src(t) == "self._data[elem]" for t in n.targets) for st in i.body for n in ast.walk(st))
+    ctx.check(own or pruning_offset_branch, cls.methods.get("clear") or dele, (clr or dele).node, "clear() resets `_data` (or deleting an element's last Offset drops the element)",
+              "OffsetMapping inherits MutableMapping.clear(), which pops Offset by Offset through __delitem__; that leaves every element key behind with an empty dict, so after clear() "
+              "`elem in m` is True, `m[elem]` is {} and node_keys() still yields the element - unlike the dictionary-of-dictionaries model (and unlike a fresh OffsetMapping)",
+              key="OffsetMapping.clear::element-level")
+
+
+@rule("C15.7", ["C15", "C14"], "DWARF decoders never use a short read: truncated input is a ValueError, and an operation cannot run past its expression block", 5)
+def c15_7(ctx: Ctx):
+    repo = ctx.repo
+    n = 0
+    for q, fi in sorted(repo.funcs.items()):
+        if not q.startswith("dwarf."):
+            continue
+        for c in calls_in(fi.node):
+            f = src(c.func)
+            if f.endswith(".read") and len(c.args) == 1 and isinstance(c.func, ast.Attribute) and isinstance(c.func.value, ast.Name) and c.func.value.id in ("io", "reader", "stream"):
+                n += 1
+                # the result must be bound to a name whose length is compared with the requested size, with a ValueError on mismatch
+                holder = [a for a in walk_no_nested(fi.node) if isinstance(a, ast.Assign) and a.value is c and isinstance(a.targets[0], ast.Name)]
+                ok = False
+                if holder:
+                    nm = holder[0].targets[0].id
+                    for i in [x for x in walk_no_nested(fi.node) if isinstance(x, ast.If)]:
+                        t = src(i.test)
+                        if f"len({nm})" in t and any(isinstance(r, ast.Raise) and r.exc is not None and "ValueError" in src(r.exc) for st in i.body for r in ast.walk(st)):
+                            ok = True
+                ctx.check(ok, fi, c, f"`{src(c)}` is length-checked before use",
+                          f"`{src(c)}` may return fewer bytes than asked at the end of a truncated `.cfi_escape`; the short (even empty) result is decoded as if complete, so an operand is fabricated "
+                          "(`0f 01 08` yields DW_OP_const1u 0) instead of ValueError",
+                          key=f"{q}::checked-read")
+            if f == "_read_exact":
+                n += 1
+                ctx.ok(fi, c, f"`{src(c)}`: read through the length-checking helper", key=f"{q}::checked-read::{src(c)[:40]}")
+            if f in ("leb128.u.decode_reader", "leb128.i.decode_reader"):
+                n += 1
+                tries = [t for t in walk_no_nested(fi.node) if isinstance(t, ast.Try) and any(c is x for st in t.body for x in ast.walk(st))]
+                ok = any(any(h.type is not None and "EOFError" in src(h.type) and any(isinstance(r, ast.Raise) and r.exc is not None and "ValueError" in src(r.exc) for st in h.body for r in ast.walk(st)) for h in t.handlers) for t in tries)
+                ctx.check(ok, fi, c, f"`{f}` EOFError is turned into ValueError",
+                          f"`{f}` raises EOFError when the input ends inside a LEB128 value; nothing translates it, so evaluate_cfi_directives leaks an exception type other than CFIStateError/ValueError "
+                          "for a truncated escape such as `.cfi_escape 0x0f`",
+                          key=f"{q}::leb-eof")
+    ee = repo.cls("dwarf.cfi._ExprEncoder").methods["decode"]
+    lin = linear(ee.node)
+    loops = [g for g in lin.stmts if isinstance(g.node, ast.While)]
+    post = [g for g in lin.stmts if isinstance(g.node, ast.Raise) and g.node.exc is not None and "ValueError" in src(g.node.exc) and not g.loops and loops and g.index > loops[0].index]
+    ok = bool(post) and any("op_bytes_read" in a and "length" in a for g in post for a in _atoms(g.guard))
+    n += 1
+    ctx.check(ok, ee, ee.node, "after the operation loop the bytes consumed equal the declared block length",
+              "the loop stops when op_bytes_read >= length, but nothing rejects `>`: an operation whose operands extend past the declared block (`0f 01 08 2a`: a 1-byte block holding the 2-byte "
+              "DW_OP_const1u 42) is accepted and the following instruction bytes are swallowed",
+              key="dwarf.cfi._ExprEncoder.decode::exact-fill")
+    if n < 5:
+        raise AnalysisError(f"only {n} stream reads found in dwarf/")
+
+
+@rule("C12.11", ["C12", "C08", "C13"], "several empty label blocks folded into one keep their CFI directives in program order", 1)
+def c12_11(ctx: Ctx):
+    repo = ctx.repo
+    rb = repo.func("assembler.assembler.Assembler.Result.CFIProcedure._replace_block")
+    prepends = any(isinstance(n, ast.Assign) and isinstance(n.targets[0], ast.Subscript) and isinstance(n.targets[0].slice, ast.Slice)
+                   and n.targets[0].slice.lower is None and n.targets[0].slice.upper is not None and src(n.targets[0].slice.upper) == "0" for n in ast.walk(rb.node))
+    appends = any(isinstance(c.func, ast.Attribute) and c.func.attr == "extend" for c in calls_in(rb.node))
+    if prepends == appends:
+        raise AnalysisError("_replace_block: neither clearly prepends nor appends")
+    fi = repo.func("assembler.assembler.Assembler._remove_empty_blocks")
+    loops = [lp for lp in walk_no_nested(fi.node) if isinstance(lp, ast.For) and any(src(c.func) == "self._replace_cfi_referents" for c in calls_in(lp))]
+    inner = [lp for lp in loops if not any(isinstance(x, ast.For) and x is not lp and any(src(c.func) == "self._replace_cfi_referents" for c in calls_in(x)) for x in ast.walk(lp))]
+    if len(inner) != 1:
+        raise AnalysisError("_remove_empty_blocks: loop over the folded blocks not found")
+    it = src(inner[0].iter)
+    backwards = it.startswith("reversed(")
+    ctx.check(backwards == prepends, fi, inner[0], f"folded blocks are visited {'last-to-first' if prepends else 'first-to-last'} (each one's directives are {'prepended' if prepends else 'appended'})",
+              f"the blocks are visited as `{it}` while _replace_block {'prepends' if prepends else 'appends'} each block's directives: with two empty label blocks at one offset "
+              "(`.cfi_def_cfa_offset 16; a:; .cfi_def_cfa_offset 24; b:; nop`) the later directive ends up in front of the earlier one (final CFA offset 16 instead of 24)",
+              key="_remove_empty_blocks::cfi-order")
+
+
+@rule("C02.7", ["C02", "C05", "C10"], "split_byte_interval orders a zero-sized block before a sized block at the same offset (as the block-ordering cache does)", 2)
+def c02_7(ctx: Ctx):
+    repo = ctx.repo
+
+    def sort_key(q: str, over: str):
+        fi = repo.func(q)
+        for c in calls_in(fi.node, nested=True):
+            if isinstance(c.func, ast.Name) and c.func.id == "sorted" and c.args and over in src(c.args[0]):
+                kw = next((k.value for k in c.keywords if k.arg == "key"), None)
+                if isinstance(kw, ast.Lambda):
+                    return fi, c, kw
+        raise AnalysisError(f"{q}: sorted({over}, key=lambda ...) not found")
+
+    _, _, ref = sort_key("_modify.cache.ModifyCache.__init__", "byte_blocks")
+    ref_parts = [src(e) for e in ref.body.elts] if isinstance(ref.body, ast.Tuple) else [src(ref.body)]
+    arg = ref.args.args[0].arg
+    tie = [p for p in ref_parts if f"{arg}.size" in p]
+    ctx.check(len(tie) == 1, repo.func("_modify.cache.ModifyCache.__init__"), ref, f"reference order of the cache: position, then `{tie[0] if tie else '?'}`", "the cache's own ordering has no size tie-break any more", key="C02.7::reference")
+    fi, c, lam = sort_key("intervalutils.split_byte_interval", "interval.blocks")
+    parts = [src(e) for e in lam.body.elts] if isinstance(lam.body, ast.Tuple) else [src(lam.body)]
+    a2 = lam.args.args[0].arg
+    want = tie[0].replace(f"{arg}.", f"{a2}.") if tie else f"{a2}.size != 0"
+    ctx.check(len(parts) >= 2 and parts[0] == f"{a2}.offset" and parts[1] == want, fi, c, f"blocks are grouped in the order ({a2}.offset, {want})",
+              f"blocks are sorted by `{', '.join(parts)}` only: when a zero-sized block and a sized block share an offset, set iteration order decides which comes first; if the sized block does, "
+              "the zero-sized block is grouped into *its* interval, and a later edit at offset 0 of that block shifts the zero-sized block too (its label moves back over untouched bytes, "
+              "the offset can become negative and the IR unserialisable)",
+              key="split_byte_interval::zero-sized-first")
+
+
+@rule("C03.14", ["C03"], "remove_block drops the block's own outgoing edges (and its call's return edges) before it moves its incoming edges", 1)
+def c03_14(ctx: Ctx):
+    fi = ctx.repo.func("_modify.remove.remove_block")
+    lin = linear(fi.node)
+    out = [g for g, c in lin.all_calls() if src(c.func) == "_remove_outgoing_edges"]
+    inc = [g for g, c in lin.all_calls() if src(c.func) == "_retarget_incoming_edges"]
+    if len(out) != 1 or not inc:
+        raise AnalysisError("remove_block: edge steps not found")
+    late = [g for g in inc if g.index < out[0].index]
+    ctx.check(not late, fi, out[0].node, "_remove_outgoing_edges runs before every _retarget_incoming_edges",
+              f"incoming edges are retargeted (line {late[0].node.lineno if late else 0}) before the outgoing ones are removed: when the removed block is a call whose predecessor calls the same function, "
+              "the callee's Return edge to the removed block is first moved onto the next block, where it coincides with the removed call's own return edge, and "
+              "remove_return_edges_from_callee then deletes that single edge - the surviving call loses its return edge (`call g; call g; ret`, delete the second call)",
+              key="remove_block::outgoing-before-incoming")
+
+
+@rule("C03.15", ["C03"], "return edges for calls in a patch are computed on the blocks as they are after the split", 1)
+def c03_15(ctx: Ctx):
+    fi = ctx.repo.func("_modify.edit.insert")
+    lin = linear(fi.node)
+    add = [g for g, c in lin.all_calls() if src(c.func) == "_add_return_edges_for_patch_calls"]
+    splits = [g for g, c in lin.all_calls() if src(c.func) in ("split_block", "remove_block")]
+    if len(add) != 1 or not splits:
+        raise AnalysisError("insert(): steps not found")
+    late = [g for g in splits if g.index > add[0].index]
+    ctx.check(not late, fi, add[0].node, "_add_return_edges_for_patch_calls runs after the target block was split (and the replaced range removed)",
+              f"the callee's return edges are staged in the patch CFG before `{src(late[0].node)[:50] if late else ''}` (line {late[0].node.lineno if late else 0}): when the patch calls the function it is "
+              "inserted into, the staged Return edge has the *unsplit* block as source; split_block only moves edges that are in the IR, so the edge stays on the head that ends with the "
+              "inserted call and the function's real `ret` never gets it",
+              key="insert::return-edges-after-split")
+
+
+@rule("C01.9", ["C01", "C04"], "an edit beyond the initialised prefix of a byte interval materialises the bytes in front of it first", 1)
+def c01_9(ctx: Ctx):
+    fi = ctx.repo.func("_modify.edit.edit_byte_interval")
+    lin = linear(fi.node)
+    splice = [g for g in lin.stmts if isinstance(g.node, ast.Assign) and src(g.node.targets[0]) == "bi.contents"]
+    if len(splice) != 1:
+        raise AnalysisError("edit_byte_interval: contents splice not found")
+    # `bi.contents` only holds the initialised prefix; slicing it at `offset` is only right when offset <= len(contents)
+    pre = [g for g in lin.stmts if g.index < splice[0].index and isinstance(g.node, ast.Assign) and src(g.node.targets[0]) == "bi.initialized_size"]
+    guards = [a for g in pre for a in _atoms(g.guard)]
+    ok = bool(pre) and any("len(bi.contents)" in a or "bi.initialized_size" in a for a in guards)
+    ctx.check(ok, fi, splice[0].node, "when `offset` lies beyond len(bi.contents) the gap is initialised before the splice",
+              "`bi.contents[:offset] + content + ...` silently clamps `offset` to the length of the initialised prefix: in a partly or wholly uninitialised interval (.bss-like, size 8, no contents) "
+              "insert_at(d, 5, b'\\xAA\\xBB') puts the bytes at block offset 0 instead of 5",
+              key="edit_byte_interval::uninitialised-prefix")
+
+
+@rule("C04.10", ["C04", "C12"], "the PC-relative adjustment is only stripped from fixups on the ISAs whose emitter adds it", 1)
+def c04_10(ctx: Ctx):
+    fi = ctx.repo.func("assembler.assembler._Streamer._fixup_to_symbolic_operand")
+    lin = linear(fi.node)
+    unwrap = [g for g in lin.stmts if isinstance(g.node, ast.Assign) and src(g.node.targets[0]) == "expr" and src(g.node.value) == "expr.lhs"]
+    if len(unwrap) != 1:
+        raise AnalysisError("_fixup_to_symbolic_operand: unwrap not found")
+    atoms = _atoms(unwrap[0].guard)
+    ok = any("isa" in a and ("IA32" in a or "X64" in a) for a in atoms)
+    ctx.check(ok, fi, unwrap[0].node, "the unwrap is restricted to IA32/X64",
+              f"the unwrap fires on any ISA whenever the addend happens to equal fixup.offset - len(encoding) (conditions: {atoms}): only the x86 emitter adds that adjustment, so on AArch64 a "
+              "user-written `ldr x1, var+(-4)` (4-byte instruction, fixup at 0) loses its addend and becomes a reference to `var`",
+              key="_fixup_to_symbolic_operand::unwrap-x86-only")
+
+
+@rule("C18.7", ["C18"], "a use is control flow when capstone puts the instruction in the jump, call *or relative-branch* group", 1)
+def c18_7(ctx: Ctx):
+    fi = ctx.repo.func("_modify.retarget._sym_expr_access_type")
+    t = src(fi.node)
+    groups = {g for g in ("CS_GRP_JUMP", "CS_GRP_CALL", "CS_GRP_BRANCH_RELATIVE") if g in t}
+    ctx.check({"CS_GRP_JUMP", "CS_GRP_CALL"} <= groups, fi, fi.node, "jump and call groups are recognised", "jump/call group test removed", key="C18.7::jump-call")
+    ctx.check("CS_GRP_BRANCH_RELATIVE" in groups, fi, fi.node, "relative branches outside the jump group (x86 loop/loope/loopne/jrcxz, MIPS bal) are recognised",
+              "only CS_GRP_JUMP and CS_GRP_CALL are tested: capstone files `loop`, `loope`, `loopne` (and MIPS `bal`) under CS_GRP_BRANCH_RELATIVE only, so `loop A` is treated as a plain code "
+              "reference - retargeting A moves the operand but not the Branch edge, and an external target gets GOT/PCREL instead of PLT",
+              key="C18.7::branch-relative")
+    ctx.check("MIPS_INS_JAL" in t, fi, fi.node, "MIPS `jal` (in no capstone semantic group) is recognised by instruction id",
+              "capstone puts MIPS `jal` in none of the jump/call/relative-branch groups, and nothing tests the instruction id: retargeting the callee of `jal A` rewrites the operand but leaves the Call edge on A",
+              key="C18.7::mips-jal")
+
+
+@rule("C12.12", ["C12", "C04"], "only the target operand of a *direct* transfer is a branch operand (PLT inference)", 1)
+def c12_12(ctx: Ctx):
+    fi = ctx.repo.func("assembler.assembler._Streamer.emit_instruction")
+    calls = [c for c in calls_in(fi.node) if src(c.func) == "self._fixup_to_symbolic_operand"]
+    if len(calls) != 1 or len(calls[0].args) < 3:
+        raise AnalysisError("emit_instruction: _fixup_to_symbolic_operand call not found")
+    arg = calls[0].args[2]
+    text = src(arg)
+    if isinstance(arg, ast.Name):
+        v = single_assign_value(fi.node, arg.id)
+        text = src(v) if v is not None else text
+    lin = linear(fi.node)
+    got = lin.cond(ast.parse(text, mode="eval").body, {})
+    want = lin.cond(ast.parse("(inst.desc.is_call or inst.desc.is_branch) and not (inst.desc.is_indirect_branch or _is_indirect_call(self._state.target.isa, inst))", mode="eval").body, {})
+    ok = implies(got, want) and implies(want, got)
+    ctx.check(ok, fi, calls[0], "is_branch = call/branch and not an indirect transfer",
+              f"every fixup of a call/branch instruction is converted with is_branch=`{text[:70]}`, also the *memory operand* of an indirect `call *ext(%rip)`/`jmp *ext(%rip)`: "
+              "for an external symbol in a PIE the PLT attribute is inferred, so the operand reads `ext@PLT` (load a pointer out of the PLT stub) instead of the plain data reference",
+              key="emit_instruction::is-branch-direct-only")
+
+
+@rule("C10.7", ["C10", "C05"], "join_byte_intervals: the padding block starts where the existing blocks end; the strictest alignment of an interval decides its padding", 2)
+def c10_7(ctx: Ctx):
+    fi = ctx.repo.func("intervalutils.join_byte_intervals")
+    inner = [f for q, f in ctx.repo.funcs.items() if q.startswith("intervalutils.join_byte_intervals.") and f.name == "insert_padding"]
+    if len(inner) != 1:
+        raise AnalysisError("join_byte_intervals.insert_padding not found")
+    ip = inner[0]
+    asg = [n for n in ast.walk(ip.node) if isinstance(n, ast.Assign) and src(n.targets[0]) == "padding_block_offset" and src(n.value) != "0"]
+    if len(asg) != 1:
+        raise AnalysisError("insert_padding: padding_block_offset not found")
+    t = src(asg[0].value)
+    ok = "max(" in t and ".offset + " in t and ".size" in t and "destination.blocks" in t
+    ctx.check(ok, ip, asg[0], "the cover block starts at the greatest end offset of the blocks already in the destination",
+              f"the cover block starts at `{t}`, the end of the block with the greatest *start* offset: with nested/overlapping blocks (A=[2,8) containing B=[4,6)) it starts at 6 and covers "
+              "A's bytes [6,8); two paddings in one join both start at the same offset and overlap each other (newly created blocks overlap)",
+              key="join_byte_intervals::padding-block-start")
+    mins = [c for c in calls_in(fi.node) if isinstance(c.func, ast.Name) and c.func.id == "min" and c.args and "module_alignment" in src(c.args[0])]
+    if len(mins) != 1:
+        raise AnalysisError("join_byte_intervals: alignment node selection not found")
+    kw = next((k.value for k in mins[0].keywords if k.arg == "key"), None)
+    kt = src(kw.body) if isinstance(kw, ast.Lambda) else "?"
+    first = src(kw.body.elts[0]) if isinstance(kw, ast.Lambda) and isinstance(kw.body, ast.Tuple) and kw.body.elts else kt
+    ok = first.replace(" ", "").startswith("-module_alignment[")
+    ctx.check(ok, fi, mins[0], "the block with the strictest alignment requirement decides the interval's padding",
+              f"the aligned block with the lowest offset decides (`key={kt}`): in an overlapping group A (align 2) / B (align 16) only A's requirement is re-established after an edit in front "
+              "of the group, B ends up misaligned although alignment[B] is still 16 (keeping the strictest block's residue keeps every weaker power-of-two requirement too)",
+              key="join_byte_intervals::strictest-alignment")
